@@ -112,6 +112,23 @@ PROPS["C07"] = {
     "thorough": _c07(2, 32, 1),
 }
 
+PROPS["C06"] = {
+    "title": "successful Set visible, never lost without a reason",
+    "technique": "SSA symbolic execution of bounded sequential histories of the real Store API (Set/Get/Delete/Wait/tick, loader) against a reference model + SMT (z3): costs, TTLs and clock advances symbolic",
+    "level_text": "Bounded symbolic model checking: every history of N real API calls (Set on two keys, Get, Delete, clock advance, drain, tick) is executed on the real Store with its real maintenance goroutines; costs (including 0 = cost function and values above MaxSize), TTLs and clock advances are symbolic and z3 decides the reference model's predictions (Set result, immediate visibility, no loss and no eviction without capacity pressure, fresh entry after expiry, oversize never admitted) for all their values.",
+    "level_note": "Trusted: go/ssa, executor encoding, z3, the clock/ticker stubs, concrete hash (one fixed mixing function; two keys), one read stripe. MaxSize 3, histories of N=2 (quick) / 3 (thorough) calls; TTL <= 2^29 ns and advances <= 2^30 ns so that entries stay on the finest wheel (C04 covers placement). Known finding: plain Set on an expired, unreclaimed key keeps the passed deadline.",
+    "assumptions": ["fresh cached clock before every read (staleness is C03)", "single client thread; maintenance runs at the client's blocking points"],
+    "outside_bound": ["histories longer than N", "more than two keys", "MaxSize other than 3", "TTL > 2^29 ns"],
+    "quick": [H("ZZ_C06_History", params={"N": 2}, reach=["history-done", "set-true", "set-false"], bounds="N=2 calls, cap 3, doorkeeper off"),
+              H("ZZ_C06_History", params={"N": 2, "DOOR": 1}, reach=["history-done", "set-false"], bounds="N=2 calls, cap 3, doorkeeper on"),
+              H("ZZ_C06_ExpiredUpdate", reach=["second-set"]),
+              H("ZZ_C06_Loader", reach=["loaded"], bounds="loader cost 1..cap+5")],
+    "thorough": [H("ZZ_C06_History", params={"N": 3}, reach=["history-done", "set-true", "set-false"], bounds="N=3 calls, cap 3, doorkeeper off"),
+                 H("ZZ_C06_History", params={"N": 3, "DOOR": 1}, reach=["history-done", "set-false"], bounds="N=3 calls, cap 3, doorkeeper on"),
+                 H("ZZ_C06_ExpiredUpdate", reach=["second-set"]),
+                 H("ZZ_C06_Loader", reach=["loaded"])],
+}
+
 NOT_APPLICABLE = [
     {"property_id": "C09", "reason": "statistical hit-ratio property over 10^4-10^6-step traces; no bounded symbolic execution of a handful of steps decides it (DESIGN.md §4 C09). The mechanisms it names (admission direction, demotion instead of eviction) are asserted structurally under C07."},
 ]
